@@ -86,7 +86,7 @@ impl Property for C17 {
         C17
     }
     fn rule(&self) -> String {
-        format!("complete enumeration of all destination strings of up to 6 (quick) / 7 (thorough) tokens over {:?}, random destinations with other characters; capability strings: all token strings up to 3 tokens of the C19 alphabet; every compressor with levels {:?}; every metadata/file-option setter with arbitrary strings incl. interior NUL, empty and 64 KiB; numeric setters (raw file mode as i32, epoch, scriptlet flags, changelog time, source date, verify flags) with arbitrary integers. Each case runs in a worker process (encoders may abort). Non-trivial = the argument is outside the documented/valid domain (must-be-error destination, rejected caps, out-of-range level, string with NUL or > 4 KiB); distinct by case hash.", DEST_TOKENS, LEVELS)
+        format!("complete enumeration of all destination strings of up to 6 (quick) / 7 (thorough) tokens over {:?}, random destinations with other characters; capability strings: all token strings up to 3 tokens of the C19 alphabet; every compressor with levels {:?}; every metadata/file-option setter with arbitrary strings incl. interior NUL, empty and 64 KiB; numeric setters (raw file mode as i32, FileMode variants written out with unmasked permission fields, epoch, scriptlet flags, changelog time, source date, verify flags) with arbitrary integers. Each case runs in a worker process (encoders may abort). Non-trivial = the argument is outside the documented/valid domain (must-be-error destination, rejected caps, out-of-range level, string with NUL or > 4 KiB); distinct by case hash.", DEST_TOKENS, LEVELS)
     }
     fn assumptions(&self) -> Vec<String> {
         vec![
@@ -119,7 +119,7 @@ impl Property for C17 {
                 name: "numeric-setters",
                 cases: tier.pick(6_000, 120_000),
                 strat: Arc::new(|| {
-                    (0u8..6, prop_oneof![3 => any::<u32>().prop_map(|v| v as i64), 2 => any::<i32>().prop_map(|v| v as i64), 3 => 0i64..0o200000, 1 => proptest::sample::select(vec![0i64, -1, 1, 0o100644, 0o040755, 0o120777, 0o010644, 0o060000, 65535, 65536, -32768, -32769, u32::MAX as i64, i32::MIN as i64])])
+                    (0u8..9, prop_oneof![3 => any::<u32>().prop_map(|v| v as i64), 2 => any::<i32>().prop_map(|v| v as i64), 3 => 0i64..0o200000, 1 => proptest::sample::select(vec![0i64, -1, 1, 0o100644, 0o040755, 0o120777, 0o010644, 0o060000, 65535, 65536, -32768, -32769, u32::MAX as i64, i32::MIN as i64])])
                         .prop_map(|(field, value)| C17Case::Num { field, value })
                         .boxed()
                 }),
@@ -246,7 +246,11 @@ fn inner(case: &C17Case, o: &mut Outcome) -> Result<(), (String, String)> {
                         2 => b = b.pre_install_script(rpm::Scriptlet::new("true").flags(rpm::ScriptletFlags::from_bits_retain(v as u32))),
                         3 => b = b.add_changelog_entry("a", "b", v as u32),
                         4 => b = b.source_date(v as u32),
-                        _ => fo = fo.verify(rpm::FileVerifyFlags::from_bits_retain(v as u32)),
+                        5 => fo = fo.verify(rpm::FileVerifyFlags::from_bits_retain(v as u32)),
+                        // the enum's fields are public: variants written out with unmasked fields
+                        6 => fo = fo.mode(rpm::FileMode::Regular { permissions: v as u16 }),
+                        7 => fo = fo.mode(rpm::FileMode::Dir { permissions: v as u16 }),
+                        _ => fo = fo.mode(rpm::FileMode::SymbolicLink { permissions: v as u16 }),
                     }
                     b.with_file(src, fo)
                 });
